@@ -21,7 +21,7 @@ _V.declare("VFloat", ("fid", IntS))          # opaque float token
 _V.declare("VList", ("l", z3.SeqSort(_Vs)))
 _V.declare("VTuple", ("tp", z3.SeqSort(_Vs)))
 _V.declare("VRec", ("rk", z3.SeqSort(_Vs)), ("rv", z3.SeqSort(_Vs)))   # dict display with constant keys
-_V.declare("VSet", ("sid", IntS))            # contents: setof(sid)
+_V.declare("VSet", ("sid", IntS), ("fz", BoolS))   # contents: setof(sid); fz: frozenset
 _V.declare("VDict", ("did", IntS))           # contents: dhas/dget/dkeys(did)
 _V.declare("VObj", ("cls", IntS), ("oid", IntS))
 _V.declare("VCls", ("cid", IntS))
@@ -81,6 +81,21 @@ def ctor(t):
 
 def is_(name, t):
     return getattr(V, "is_" + name)(t)
+
+
+AT = z3.Function("AT", SeqV, IntS, V)   # element access kept uninterpreted in terms; defined at solve time
+
+
+def nth(seq, i):
+    """seq[i] for 0 <= i < len(seq). Concrete positions of concrete lists are resolved; otherwise the access
+    stays the uninterpreted application AT(seq, i) (z3's simplifier would expand seq.nth into bounds-guarded
+    ite-terms); prove.at_instances adds AT(s,i) == seq.nth(s,i) for in-range i."""
+    seq = simp(seq)
+    i = simp(i) if not isinstance(i, int) else z3.IntVal(i)
+    items = unit_items(seq)
+    if items is not None and z3.is_int_value(i) and 0 <= i.as_long() < len(items):
+        return items[i.as_long()]
+    return AT(seq, i)
 
 
 def seq_of_list(items):
